@@ -1,4 +1,5 @@
 import Scfg.Py.Micro
+import Scfg.Model.Ast2Cfg
 /-!
 # C08 / C07 — semantic equivalence of Python-subset programs, decided by simulation
 
@@ -54,5 +55,401 @@ example : simOK (sysOf (compileFn progA)) (sysOf (compileFn progB))
 example : simOK (sysOf (compileFn progA)) (sysOf (compileFn progBad))
     (initOfParams (compileFn progA) ["x", "y"]) (initOfParams (compileFn progBad) ["x", "y"]) 64 = false := by
   decide +kernel
+
+
+/-! ## Pruning of empty blocks (model `Scfg.Model.pruneEmpty`, exact correspondence with
+`ASTCFG.prune_empty`): what it can never do, for every block list.
+
+* `pruneEmpty_distinct` — it never makes the two targets of a branching block coincide
+  (the defect repaired by bd9279f; a two-way block with identical successors is what
+  `extract_region` / `find_head` assert against and what code generation emits twice).
+* `pruneEmpty_closed` — "only … empty blocks are pruned" without leaving a dangling successor:
+  if every target named a block before, every target names a block afterwards. The hypothesis
+  `EmptyRanked` (chains of empty blocks are acyclic) is needed: with a cycle of empty blocks the
+  code itself leaves a dangling name; every loop the front end builds has a test in its header.
+-/
+section Prune
+open Scfg.Model
+
+/-- The two targets of every two-way block differ. -/
+def distinctTargets (bs : List WBlock) : Prop :=
+  ∀ x ∈ bs, ∀ t u, x.jts = [t, u] → t ≠ u
+
+/-- Every target names a block of the list. -/
+def closedB (bs : List WBlock) : Prop :=
+  ∀ x ∈ bs, ∀ t ∈ x.jts, ∃ y ∈ bs, y.name = t
+
+/-- At most two targets per block (what `prune_empty` knows how to rewire). -/
+def arity2 (bs : List WBlock) : Prop := ∀ x ∈ bs, x.jts.length ≤ 2
+
+/-- Chains of empty blocks are acyclic: `r` strictly decreases from an empty block to its first
+    target whenever that target is (the name of) an empty block too. -/
+def EmptyRanked (r : Nat → Nat) (bs : List WBlock) : Prop :=
+  ∀ x ∈ bs, x.instrs = [] → ∀ it rest, x.jts = it :: rest →
+    (∃ y ∈ bs, y.name = it ∧ y.instrs = []) → r it < r x.name
+
+theorem foldlM_inv {α β : Type} (P : β → Prop) (f : β → α → Except String β) :
+    ∀ (l : List α) (init out : β), P init →
+      (∀ b a b', P b → f b a = .ok b' → P b') → l.foldlM f init = .ok out → P out := by
+  intro l
+  induction l with
+  | nil => intro init out h0 _ h; simp [List.foldlM, pure, Except.pure] at h; exact h ▸ h0
+  | cons a l ih =>
+    intro init out h0 hs h
+    simp only [List.foldlM_cons, bind, Except.bind] at h
+    cases hfa : f init a with
+    | error e => rw [hfa] at h; simp at h
+    | ok b' => rw [hfa] at h; exact ih b' out (hs _ _ _ h0 hfa) hs h
+
+/-- One step of the pruning loop, as a function (the body of the `foldlM` in `pruneEmpty`). -/
+def pruneStep (entry : Nat) (cur : List WBlock) (name : Nat) : Except String (List WBlock) :=
+  match cur.find? (·.name == name) with
+  | none => .ok cur
+  | some b =>
+    if !b.instrs.isEmpty then .ok cur
+    else match b.jts with
+      | [] => .error "IndexError:prune_empty"
+      | it :: _ =>
+        if name == entry && cur.any (fun x => x.name != name && x.jts.contains it) then .ok cur
+        else if cur.any (fun x => match x.jts with
+            | [t, u] => t != u && ((t == name && u == it) || (t == it && u == name))
+            | _ => false) then .ok cur
+        else
+        let rest := cur.filter (·.name != name)
+        .ok (rest.map fun x =>
+          match x.jts with
+          | [t] => if t == name then { x with jts := [it] } else x
+          | [t, u] => { x with jts := [if t == name then it else t, if u == name then it else u] }
+          | _ => x)
+
+theorem pruneEmpty_eq (bs : List WBlock) :
+    pruneEmpty bs = (bs.map (·.name)).foldlM (pruneStep ((bs.head?.map (·.name)).getD 0)) bs := rfl
+
+/-- The rewiring of one block. -/
+def rew (name it : Nat) (x : WBlock) : WBlock :=
+  match x.jts with
+  | [t] => if t == name then { x with jts := [it] } else x
+  | [t, u] => { x with jts := [if t == name then it else t, if u == name then it else u] }
+  | _ => x
+
+theorem rew_name (name it : Nat) (x : WBlock) : (rew name it x).name = x.name := by
+  unfold rew; split <;> (try split) <;> rfl
+
+theorem rew_instrs (name it : Nat) (x : WBlock) : (rew name it x).instrs = x.instrs := by
+  unfold rew; split <;> (try split) <;> rfl
+
+/-- What a successful, effective step looks like. -/
+theorem pruneStep_cases (entry : Nat) (cur : List WBlock) (name : Nat) (out : List WBlock)
+    (h : pruneStep entry cur name = .ok out) :
+    out = cur ∨ ∃ b it rest, b ∈ cur ∧ b.name = name ∧ b.instrs = [] ∧ b.jts = it :: rest ∧
+      (¬ ∃ x ∈ cur, ∃ t u, x.jts = [t, u] ∧ t ≠ u ∧ ((t = name ∧ u = it) ∨ (t = it ∧ u = name))) ∧
+      out = (cur.filter (·.name != name)).map (rew name it) := by
+  unfold pruneStep at h
+  split at h
+  · left; cases h; rfl
+  · rename_i b hb
+    split at h
+    · left; cases h; rfl
+    · rename_i hemp
+      split at h
+      · cases h
+      · rename_i it rest hj
+        split at h
+        · left; cases h; rfl
+        · split at h
+          · left; cases h; rfl
+          · rename_i hg
+            right
+            refine ⟨b, it, rest, List.mem_of_find?_eq_some hb, ?_, ?_, hj, ?_, ?_⟩
+            · have := List.find?_some hb; simpa using this
+            · simpa using hemp
+            · intro ⟨x, hx, t, u, hxj, hne, hor⟩
+              apply hg
+              rw [List.any_eq_true]
+              refine ⟨x, hx, ?_⟩
+              rw [hxj]
+              rcases hor with ⟨h1, h2⟩ | ⟨h1, h2⟩ <;> subst h1 <;> subst h2 <;> simp [hne]
+            · cases h; rfl
+
+theorem mem_rest {cur : List WBlock} {name it : Nat} {z : WBlock}
+    (hz : z ∈ (cur.filter (·.name != name)).map (rew name it)) :
+    ∃ x ∈ cur, x.name ≠ name ∧ z = rew name it x := by
+  rw [List.mem_map] at hz
+  obtain ⟨x, hx, rfl⟩ := hz
+  rw [List.mem_filter] at hx
+  exact ⟨x, hx.1, by simpa using hx.2, rfl⟩
+
+theorem pruneStep_distinct (entry : Nat) (cur : List WBlock) (name : Nat) (out : List WBlock)
+    (hd : distinctTargets cur) (h : pruneStep entry cur name = .ok out) : distinctTargets out := by
+  rcases pruneStep_cases entry cur name out h with rfl | ⟨b, it, rest, _, _, _, _, hg, rfl⟩
+  · exact hd
+  · intro z hz t' u' hzj
+    obtain ⟨x, hx, _, rfl⟩ := mem_rest hz
+    unfold rew at hzj
+    split at hzj
+    · split at hzj <;> simp_all
+    · rename_i t u hxj
+      have htu := hd x hx t u hxj
+      simp only [WBlock.mk.injEq, List.cons.injEq, and_true, true_and] at hzj
+      obtain ⟨rfl, rfl⟩ := hzj
+      intro heq
+      apply hg
+      refine ⟨x, hx, t, u, hxj, htu, ?_⟩
+      by_cases h1 : t = name <;> by_cases h2 : u = name
+      · exact absurd (h1.trans h2.symm) htu
+      · left; refine ⟨h1, ?_⟩; simp [h1, h2] at heq; exact heq.symm
+      · right; refine ⟨?_, h2⟩; simp [h1, h2] at heq; exact heq
+      · simp [h1, h2] at heq; exact absurd heq htu
+    · rename_i h1 h2
+      exact hd x hx t' u' hzj
+
+/-- **`prune_empty` never makes the two targets of a branching block coincide.** -/
+theorem pruneEmpty_distinct (bs out : List WBlock) (hd : distinctTargets bs)
+    (h : pruneEmpty bs = .ok out) : distinctTargets out := by
+  rw [pruneEmpty_eq] at h
+  exact foldlM_inv distinctTargets _ _ _ _ hd
+    (fun b a b' hb hs => pruneStep_distinct _ b a b' hb hs) h
+
+
+theorem rew_length (name it : Nat) (x : WBlock) : (rew name it x).jts.length = x.jts.length := by
+  unfold rew; split
+  · rename_i t h; split <;> simp [h]
+  · rename_i t u h; simp [h]
+  · rfl
+
+/-- With at most two targets, every target of the rewired block is an old target other than the
+    removed name, or the removed block's own target. -/
+theorem rew_targets (name it : Nat) (x : WBlock) (hl : x.jts.length ≤ 2) (t' : Nat)
+    (h : t' ∈ (rew name it x).jts) : (t' ∈ x.jts ∧ t' ≠ name) ∨ t' = it := by
+  unfold rew at h
+  split at h
+  · rename_i t hj
+    split at h
+    · right; simpa using h
+    · rename_i hne; left; rw [hj] at h ⊢; simp at h; subst h; simp; simpa using hne
+  · rename_i t u hj
+    simp at h
+    rcases h with h | h
+    · by_cases ht : t = name
+      · right; simpa [ht] using h
+      · left; simp [ht] at h; subst h; simp [hj, ht]
+    · by_cases hu : u = name
+      · right; simpa [hu] using h
+      · left; simp [hu] at h; subst h; simp [hj, hu]
+  · rename_i h1 h2
+    match hj : x.jts, hl with
+    | [], _ => rw [hj] at h; simp at h
+    | [t], _ => exact absurd hj (h1 t)
+    | [t, u], _ => exact absurd hj (h2 t u)
+    | _ :: _ :: _ :: _, hl => simp at hl
+
+/-- The first target of the rewired block. -/
+theorem rew_head (name it : Nat) (x : WBlock) (hl : x.jts.length ≤ 2) (it' : Nat) (rest' : List Nat)
+    (h : (rew name it x).jts = it' :: rest') :
+    ∃ hd rest0, x.jts = hd :: rest0 ∧ it' = if hd = name then it else hd := by
+  unfold rew at h
+  split at h
+  · rename_i t hj
+    split at h
+    · rename_i ht; simp at h; exact ⟨t, [], hj, by simp at ht; simp [ht, h.1]⟩
+    · rename_i ht; rw [hj] at h; simp at h ht; exact ⟨t, [], hj, by rw [if_neg ht]; exact h.1.symm⟩
+  · rename_i t u hj
+    simp at h
+    refine ⟨t, [u], hj, ?_⟩
+    by_cases ht : t = name <;> simp [ht] at h ⊢ <;> exact h.1.symm
+  · rename_i h1 h2
+    match hj : x.jts, hl with
+    | [], _ => rw [hj] at h; simp at h
+    | [t], _ => exact absurd hj (h1 t)
+    | [t, u], _ => exact absurd hj (h2 t u)
+    | _ :: _ :: _ :: _, hl => simp at hl
+
+/-- The invariant carried through the pruning loop. -/
+def PruneInv (r : Nat → Nat) (bs : List WBlock) : Prop :=
+  closedB bs ∧ arity2 bs ∧ EmptyRanked r bs
+
+theorem pruneStep_inv (r : Nat → Nat) (entry : Nat) (cur : List WBlock) (name : Nat)
+    (out : List WBlock) (hi : PruneInv r cur) (h : pruneStep entry cur name = .ok out) :
+    PruneInv r out := by
+  rcases pruneStep_cases entry cur name out h with rfl | ⟨b, it, rest, hb, hbn, hbe, hbj, _, rfl⟩
+  · exact hi
+  obtain ⟨hc, ha, hr⟩ := hi
+  -- the removed block does not target itself
+  have hne : it ≠ name := by
+    intro heq
+    have := hr b hb hbe it rest hbj ⟨b, hb, by rw [hbn, heq], hbe⟩
+    rw [hbn, heq] at this; exact Nat.lt_irrefl _ this
+  -- a block of `cur` with a name other than `name` survives, rewired
+  have surv : ∀ y ∈ cur, y.name ≠ name →
+      rew name it y ∈ (cur.filter (·.name != name)).map (rew name it) := by
+    intro y hy hyn
+    exact List.mem_map.2 ⟨y, List.mem_filter.2 ⟨hy, by simpa using hyn⟩, rfl⟩
+  have hit : ∃ y ∈ cur, y.name = it := hc b hb it (by rw [hbj]; simp)
+  refine ⟨?_, ?_, ?_⟩
+  · intro z hz t' ht'
+    obtain ⟨x, hx, _, rfl⟩ := mem_rest hz
+    rcases rew_targets name it x (ha x hx) t' ht' with ⟨hm, hn⟩ | heq
+    · obtain ⟨y, hy, hyn⟩ := hc x hx t' hm
+      exact ⟨rew name it y, surv y hy (by rw [hyn]; exact hn), by rw [rew_name, hyn]⟩
+    · obtain ⟨y, hy, hyn⟩ := hit
+      exact ⟨rew name it y, surv y hy (by rw [hyn]; exact hne), by rw [rew_name, hyn, heq]⟩
+  · intro z hz
+    obtain ⟨x, hx, _, rfl⟩ := mem_rest hz
+    rw [rew_length]; exact ha x hx
+  · intro z hz hze it' rest' hzj ⟨y', hy', hy'n, hy'e⟩
+    obtain ⟨x, hx, _, rfl⟩ := mem_rest hz
+    obtain ⟨y, hy, _, rfl⟩ := mem_rest hy'
+    rw [rew_instrs] at hze hy'e
+    rw [rew_name] at hy'n ⊢
+    obtain ⟨hd, rest0, hxj, hit'⟩ := rew_head name it x (ha x hx) it' rest' hzj
+    by_cases hh : hd = name
+    · -- x → name → it : two strict decreases
+      rw [if_pos hh] at hit'
+      have h1 : r name < r x.name := by
+        have := hr x hx hze hd rest0 hxj ⟨b, hb, by rw [hbn, hh], hbe⟩
+        rwa [hh] at this
+      have h2 : r it < r name := by
+        have := hr b hb hbe it rest hbj ⟨y, hy, by rw [hy'n, hit'], hy'e⟩
+        rwa [hbn] at this
+      rw [hit']; exact Nat.lt_trans h2 h1
+    · rw [if_neg hh] at hit'
+      rw [hit']
+      exact hr x hx hze hd rest0 hxj ⟨y, hy, by rw [hy'n, hit'], hy'e⟩
+
+/-- **No dangling successor after pruning**: if every target named a block, blocks have at most
+    two targets and chains of empty blocks are acyclic, then after `prune_empty` every target still
+    names a block (and the other two facts persist). -/
+theorem pruneEmpty_closed (r : Nat → Nat) (bs out : List WBlock) (hi : PruneInv r bs)
+    (h : pruneEmpty bs = .ok out) : closedB out ∧ arity2 out := by
+  rw [pruneEmpty_eq] at h
+  have := foldlM_inv (PruneInv r) _ _ _ _ hi
+    (fun b a b' hb hs => pruneStep_inv r _ b a b' hb hs) h
+  exact ⟨this.1, this.2.1⟩
+
+/-- It never raises `IndexError` either when every empty block has a target. -/
+theorem pruneStep_ok_of_targets (entry : Nat) (cur : List WBlock) (name : Nat)
+    (ht : ∀ x ∈ cur, x.instrs = [] → x.jts ≠ []) : ∃ out, pruneStep entry cur name = .ok out := by
+  unfold pruneStep
+  split
+  · exact ⟨_, rfl⟩
+  · rename_i b hb
+    split
+    · exact ⟨_, rfl⟩
+    · rename_i hemp
+      split
+      · rename_i hj
+        exact absurd hj (ht b (List.mem_of_find?_eq_some hb) (by simpa using hemp))
+      · split
+        · exact ⟨_, rfl⟩
+        · split <;> exact ⟨_, rfl⟩
+
+/-! Non-vacuity: `if x: pass else: pass; return` as the front end builds it (test block 0, two
+empty arms 1 and 2, join 3). The hypotheses hold, the branch keeps two distinct targets and every
+target names a block. -/
+def pruneDemo : List WBlock :=
+  [{ name := 0, instrs := [.e (.leaf 1 ["x"])], jts := [1, 2] }, { name := 1, jts := [3] },
+   { name := 2, jts := [3] }, { name := 3, instrs := [.s (.ret (.cst Cst.none))] }]
+
+example : (pruneEmpty pruneDemo).toOption.map (·.map fun b => (b.name, b.jts))
+    = some [(0, [3, 2]), (2, [3]), (3, [])] := by decide +kernel
+
+
+example : PruneInv (fun n => 10 - n) pruneDemo ∧ distinctTargets pruneDemo := by
+  refine ⟨⟨?_, ?_, ?_⟩, ?_⟩ <;> simp [closedB, arity2, EmptyRanked, distinctTargets, pruneDemo]
+
+
+/-! ### Decidable hypotheses and the corollary used per generated program -/
+
+def HasTargets (bs : List WBlock) : Prop := ∀ x ∈ bs, x.instrs = [] → x.jts ≠ []
+
+theorem isEmpty_false_of_ne {α} {l : List α} (h : (!l.isEmpty) = false) : l = [] := by
+  cases l <;> simp_all
+
+theorem distinctTargetsB_sound (bs : List WBlock) (h : distinctTargetsB bs = true) :
+    distinctTargets bs := by
+  intro x hx t u hj
+  have := List.all_eq_true.1 h x hx
+  rw [hj] at this
+  simpa using this
+
+theorem closedBB_sound (bs : List WBlock) (h : closedBB bs = true) : closedB bs := by
+  intro x hx t ht
+  have := List.all_eq_true.1 (List.all_eq_true.1 h x hx) t ht
+  obtain ⟨y, hy, hyn⟩ := List.any_eq_true.1 this
+  exact ⟨y, hy, by simpa using hyn⟩
+
+theorem arity2B_sound (bs : List WBlock) (h : arity2B bs = true) : arity2 bs := by
+  intro x hx
+  simpa using List.all_eq_true.1 h x hx
+
+theorem emptyRankedB_sound (r : Nat → Nat) (bs : List WBlock) (h : emptyRankedB r bs = true) :
+    EmptyRanked r bs := by
+  intro x hx hxe it rest hj ⟨y, hy, hyn, hye⟩
+  have := List.all_eq_true.1 h x hx
+  rw [hj, hxe] at this
+  simp only [List.isEmpty_nil, Bool.not_true, Bool.false_or, Bool.or_eq_true, Bool.not_eq_true',
+    decide_eq_true_eq] at this
+  rcases this with hno | hlt
+  · have hany : (bs.any fun y => y.name == it && y.instrs.isEmpty) = true :=
+      List.any_eq_true.2 ⟨y, hy, by simp [hyn, hye]⟩
+    rw [hany] at hno; cases hno
+  · exact hlt
+
+theorem emptiesHaveTargetB_sound (bs : List WBlock) (h : emptiesHaveTargetB bs = true) :
+    HasTargets bs := by
+  intro x hx hxe hj
+  have := List.all_eq_true.1 h x hx
+  rw [hxe, hj] at this
+  simp at this
+
+theorem pruneStep_hasTargets (entry : Nat) (cur : List WBlock) (name : Nat) (out : List WBlock)
+    (ht : HasTargets cur) (h : pruneStep entry cur name = .ok out) : HasTargets out := by
+  rcases pruneStep_cases entry cur name out h with rfl | ⟨b, it, rest, _, _, _, _, _, rfl⟩
+  · exact ht
+  · intro z hz hze hzj
+    obtain ⟨x, hx, _, rfl⟩ := mem_rest hz
+    rw [rew_instrs] at hze
+    have hl := rew_length name it x
+    rw [hzj] at hl
+    exact ht x hx hze (List.eq_nil_of_length_eq_zero hl.symm)
+
+theorem foldlM_ok {α β : Type} (P : β → Prop) (f : β → α → Except String β)
+    (hs : ∀ b a, P b → ∃ b', f b a = .ok b' ∧ P b') :
+    ∀ (l : List α) (init : β), P init → ∃ out, l.foldlM f init = .ok out ∧ P out := by
+  intro l
+  induction l with
+  | nil => intro init h0; exact ⟨init, rfl, h0⟩
+  | cons a l ih =>
+    intro init h0
+    obtain ⟨b', hb', hp⟩ := hs init a h0
+    obtain ⟨out, ho, hpo⟩ := ih b' hp
+    exact ⟨out, by simp only [List.foldlM_cons, bind, Except.bind, hb']; exact ho, hpo⟩
+
+/-- **Pruning of empty blocks, for every block list that passes the (decidable) hypotheses**:
+    it does not abort, leaves no dangling successor, keeps at most two targets per block and never
+    makes the two targets of a branching block coincide. The harness evaluates `pruneHypOK` on the
+    block list the model hands to `pruneEmpty` for every generated program, and the model's result
+    is compared with `prune_empty`'s block for block. -/
+theorem front_end_prune_ok (bs : List WBlock) (h : pruneHypOK bs = true) :
+    ∃ out, pruneEmpty bs = .ok out ∧ closedB out ∧ arity2 out ∧ distinctTargets out := by
+  simp only [pruneHypOK, Bool.and_eq_true] at h
+  obtain ⟨⟨⟨⟨hd, hc⟩, ha⟩, hr⟩, ht⟩ := h
+  have hinv : PruneInv (rankOf bs) bs ∧ distinctTargets bs ∧ HasTargets bs :=
+    ⟨⟨closedBB_sound _ hc, arity2B_sound _ ha, emptyRankedB_sound _ _ hr⟩,
+      distinctTargetsB_sound _ hd, emptiesHaveTargetB_sound _ ht⟩
+  rw [pruneEmpty_eq]
+  obtain ⟨out, ho, hp⟩ := foldlM_ok
+    (fun cur => PruneInv (rankOf bs) cur ∧ distinctTargets cur ∧ HasTargets cur)
+    (pruneStep ((bs.head?.map (·.name)).getD 0))
+    (fun b a hb => by
+      obtain ⟨b', hb'⟩ := pruneStep_ok_of_targets ((bs.head?.map (·.name)).getD 0) b a hb.2.2
+      exact ⟨b', hb', pruneStep_inv _ _ _ _ _ hb.1 hb', pruneStep_distinct _ _ _ _ hb.2.1 hb',
+        pruneStep_hasTargets _ _ _ _ hb.2.2 hb'⟩)
+    (bs.map (·.name)) bs hinv
+  exact ⟨out, ho, hp.1.1, hp.1.2.1, hp.2.1⟩
+
+example : pruneHypOK pruneDemo = true := by decide +kernel
+
+end Prune
 
 end Scfg.C08
